@@ -75,7 +75,9 @@ def clsName : Cls → String
 
 def handle (op : String) (args : List Sx) : Option Sx :=
   match op, args with
-  | "c18.complete", [hdr, extra, vars, homes, name, o, typedEmpty, mode, isDir] => do
+  | "c18.complete", [hdr, extra, vars, homes, wq, se, name, o, typedEmpty, mode, isDir] => do
+    let wq ← asBool wq
+    let se ← asBool se
     let T ← mkTables hdr extra
     let E ← mkEnv vars homes
     let name ← asS name
@@ -83,13 +85,13 @@ def handle (op : String) (args : List Sx) : Option Sx :=
     let te ← asBool typedEmpty
     let m ← asMode mode
     let d ← asBool isDir
-    let (st, en, ap) := seenStyle o te m
+    let (st, en, ap) := seenStyle wq o te m
     let texts := completions T E name st en d ap
     let tail := lineTail o m
     pure (.list [
       ofListWith ofStr texts,
       ofListWith (fun t => ofRead (readBack T E (t ++ tail))) texts,
-      ofListWith (fun c => .sym (clsName c)) (classify T E name o te m d),
+      ofListWith (fun c => .sym (clsName c)) (classify T E wq se name o te m d),
       .list [ofStr st, ofStr en, ofBool ap]])
   | "c18.quote", [hdr, extra, s, start, end_, isDir, appendEnd] => do
     let T ← mkTables hdr extra
